@@ -6,6 +6,7 @@ package badger
 import (
 	"encoding/json"
 	"fmt"
+	"runtime/debug"
 	"testing"
 	"time"
 
@@ -25,7 +26,7 @@ type enumCtx struct {
 }
 
 func newEnum(t *testing.T, j *vlib.Job, r *vlib.Result, name string) *enumCtx {
-	e := &enumCtx{t: t, j: j, r: r, name: name, deadline: j.Deadline(time.Now())}
+	e := &enumCtx{t: t, j: j, r: r, name: name, deadline: j.Deadline(time.Now()), journal: true}
 	if len(j.Replay) > 0 && string(j.Replay) != "null" {
 		var rp struct {
 			Case string `json:"case"`
@@ -73,7 +74,16 @@ func (e *enumCtx) do(id string, f func() (string, string)) {
 	if e.r.Evaluations%1009 == 1 {
 		e.r.Sample(map[string]any{"scenario": e.name, "case": id})
 	}
-	class, desc := f()
+	class, desc := func() (c, d string) {
+		defer func() {
+			// a panic of the code under test on an enumerated input is a failure of that case, not of
+			// the harness (panics in other goroutines still kill the worker: the journal names the case)
+			if r := recover(); r != nil {
+				c, d = "panic/"+panicClass(fmt.Sprint(r)), fmt.Sprintf("panic: %v\n%s", r, debug.Stack())
+			}
+		}()
+		return f()
+	}()
 	if class != "" {
 		e.r.Violate(class, fmt.Sprintf("case %s: %s", id, desc), map[string]any{"scenario": e.name, "case": id}, id, nil)
 		if !e.j.IsKnown(class) {
